@@ -28,6 +28,7 @@ def c14Hyps (j : Json) : Except String Json := do
                     ("proseLine", Json.bool prose), ("inertBody", Json.bool body),
                     ("inertBody2", Json.bool (Mistletoe.InertInline2.inertBody2 (Document.joinNl (lines.map Py.strip)))),
                     ("inertBody3", Json.bool (Mistletoe.InertInline2.inertBody3 (Document.joinNl (lines.map Py.strip)))),
+                    ("inertBody4", Json.bool (Mistletoe.InertInline3.inertBody4 (Document.joinNl (lines.map Py.strip)))),
                     ("text", Driver.str (Document.joinNl (lines.map Py.strip)))])
 
 /-- a tree of the C03 fragment from JSON: {"k":"para","lines":[…]} | {"k":"heading","level":n,"text":…,"line":…}
@@ -112,8 +113,11 @@ def c10Reflow (j : Json) : Except String Json := do
   | [] => throw "paras: empty"
   | p :: rest =>
     let ok := Reflow.plainPara p && rest.all Reflow.plainPara && decide (1 ≤ L)
-    pure (Json.mkObj [("ok", Json.bool ok), ("text", Driver.str (Reflow.textOf p rest)),
-                      ("expected", Driver.str (Reflow.textOf (Reflow.reflowG L p) (rest.map (Reflow.reflowG L))))])
+    let k := (j.getObjValAs? Nat "depth").toOption.getD 0
+    -- inside k block quotes (`C10_quoted_reflow_partial`): the budget is max (L - 2k) 1; k = 0 is `C10_prose_reflow_markdown_partial`
+    let B := ReflowQuote.qBudget L k
+    pure (Json.mkObj [("ok", Json.bool ok), ("text", Driver.str (ReflowQuote.textOfQ k p rest)),
+                      ("expected", Driver.str (ReflowQuote.textOfQ k (Reflow.reflowG B p) (rest.map (Reflow.reflowG B))))])
 
 /-- op "c06.spec": {"text": s} → the hypotheses of `C06_emphasis_is_spec_partial` (`plain`, `stdWs`) and the emphasis spans
     (start, text start, text end, stop, strong) the Lean specification of CommonMark 6.2 computes for `s` -/
